@@ -173,6 +173,8 @@ pub fn format_general(
     alternate_form: bool,
     always_shows_fract: bool,
 ) -> String {
+    // C and Python treat a precision of 0 as 1 for %g
+    let precision = precision.max(1);
     match magnitude {
         magnitude if magnitude.is_finite() => {
             let r_exp = format!("{:.*e}", precision.saturating_sub(1), magnitude);
